@@ -101,6 +101,10 @@ def r_spec(A, ctx, scope, rule="R-SPEC"):
 
 
 # -------------------------------------------------------------------- R-MATRIX
+class _Done(Exception):
+    pass
+
+
 class Refuse(Exception):
     def __init__(self, kind, by):
         self.kind, self.by = kind, by
@@ -199,6 +203,8 @@ class Validator:
             if isinstance(st, ast.Raise):
                 exc = ast.unparse(st.exc.func) if isinstance(st.exc, ast.Call) else ast.unparse(st.exc)
                 raise Refuse(exc, "custom_checks raise")
+            if isinstance(st, ast.Return):
+                raise _Done()
             if isinstance(st, ast.Expr) and isinstance(st.value, ast.Call):
                 c = st.value
                 fn = ast.unparse(c.func)
@@ -225,7 +231,10 @@ class Validator:
     def validate(self, solver, cell):
         cc = solver.find_method("custom_checks")
         names = dict(zip(["X", "y", "datafit", "penalty"], cc.call_params()))
-        self.run_block(cc.node.body, cell, names, solver)
+        try:
+            self.run_block(cc.node.body, cell, names, solver)
+        except _Done:
+            pass
         if cell["datafit"] is not None or self.required(solver, "_datafit_required_attr"):
             self.check_attrs(cell["datafit"], self.required(solver, "_datafit_required_attr"), False, "datafit")
         self.check_attrs(cell["penalty"], self.required(solver, "_penalty_required_attr"), False, "penalty")
